@@ -42,10 +42,10 @@ Proof. reflexivity. Qed.
 
 Lemma step_kind : forall p h o p' o', step p h o = Some (p', o') -> is_identity p' = is_identity p.
 Proof.
-  intros [st|st| | |] h o p' o' H; simpl in H.
+  intros [st|st|se| |] h o p' o' H; simpl in H.
   - destruct (sh_step st h o) as [[st' o1]|]; inversion H; reflexivity.
   - destruct (ex_step st h o) as [[st' o1]|]; inversion H; reflexivity.
-  - destruct (fr_step h o); inversion H; reflexivity.
+  - destruct (fr_step se h o); inversion H; reflexivity.
   - inversion H; reflexivity.
   - inversion H; reflexivity.
 Qed.
@@ -583,11 +583,11 @@ Definition plain_hook (h : hook) : bool :=
 Lemma step_estates_plain : forall p h o p' o', plain_hook h = true -> step p h o = Some (p', o') ->
   estates [p'] = estates [p].
 Proof.
-  intros [st|st| | |] h o p' o' Hh H; simpl in H.
+  intros [st|st|se| |] h o p' o' Hh H; simpl in H.
   - destruct (sh_step st h o) as [[st' o1]|]; inversion H; reflexivity.
   - destruct h; try discriminate; destruct o; simpl in H; try (inversion H; reflexivity).
     + destruct (ex_method st opname kind m); inversion H; reflexivity.
-  - destruct (fr_step h o); inversion H; reflexivity.
+  - destruct (fr_step se h o); inversion H; reflexivity.
   - inversion H; reflexivity.
   - inversion H; reflexivity.
 Qed.
@@ -656,7 +656,7 @@ Proof.
   - destruct (step p (HClientMethod n k) (OMethod m)) as [[p1 o1]|] eqn:Es; [|discriminate].
     destruct (apply_hook r (HClientMethod n k) o1) as [[r' o2]|] eqn:Er; [|discriminate]. inversion H; subst.
     rewrite estates_cons in *.
-    destruct p as [st|st| | |]; simpl in Es;
+    destruct p as [st|st|se| |]; simpl in Es;
       try (inversion Es; subst; simpl in *; eapply IH; eauto; fail).
     destruct (ex_method st n k m) as [m1|] eqn:Em; [|discriminate]. inversion Es; subst.
     simpl in Hl. assert (Hr : estates r = []) by (destruct (estates r); [reflexivity|simpl in Hl; lia]).
@@ -687,7 +687,7 @@ Qed.
 Lemma step_client_requests : forall p c p' o', step p HClientModule (OClient c) = Some (p', o') ->
   exists c', o' = OClient c' /\ forall C, map (request_of C) (cm_methods c') = map (request_of C) (cm_methods c).
 Proof.
-  intros [st|st| | |] c p' o' H; simpl in H.
+  intros [st|st|se| |] c p' o' H; simpl in H.
   - unfold sh_client in H. destruct (sh_methods st (cm_methods c)) as [[st1 ms]|] eqn:Em; [|discriminate].
     destruct (sh_extend_imports (cm_imports c) (sh_extended st1)) as [imports1 rest]. inversion H; subst.
     eexists. split; [reflexivity|]. intros C. simpl. eapply sh_methods_requests; eauto.
@@ -696,8 +696,11 @@ Proof.
     destruct (fr_methods (fr_imported (cm_imports c)) (cm_methods c)) as [[[ms a] b]|] eqn:Em; [|discriminate].
     destruct (dedup a ++ b) eqn:Ed.
     + inversion H; subst. eexists. split; [reflexivity|]. intros C. simpl. eapply fr_methods_requests; eauto.
-    + destruct (fr_tc_imports (fr_imported (cm_imports c)) (dedup a)); [|discriminate]. inversion H; subst.
-      eexists. split; [reflexivity|]. intros C. simpl. eapply fr_methods_requests; eauto.
+    + destruct (fr_tc_imports (fr_imported (cm_imports c)) (dedup a)) as [[|t0 tr]|]; [| |discriminate].
+      * destruct se; [|discriminate]. inversion H; subst.
+        eexists. split; [reflexivity|]. intros C. simpl. eapply fr_methods_requests; eauto.
+      * inversion H; subst.
+        eexists. split; [reflexivity|]. intros C. simpl. eapply fr_methods_requests; eauto.
   - inversion H; subst. eexists. split; [reflexivity|]. reflexivity.
   - inversion H; subst. eexists. split; [reflexivity|]. reflexivity.
 Qed.
@@ -1027,8 +1030,8 @@ Proof. intros l1 l2 n [i [Hi Hn]]. exists i. split; [apply in_or_app; left; exac
    and return annotations), and the class each method validates with, is still bound: by a global import that was
    kept, or — for the validated class — by the import placed at the top of the method.  Hypothesis: subscript heads
    (Optional, List, Union, AsyncIterator ...) are not package imports; the tie checks it on every generated client. *)
-Theorem forward_refs_bound : forall c c',
-  fr_client c = Some c' ->
+Theorem forward_refs_bound : forall se c c',
+  fr_client se c = Some c' ->
   (forall m h, In m (cm_methods c) -> In h (sig_heads m) -> lookup h (fr_imported (cm_imports c)) = None) ->
   forall m', In m' (cm_methods c') ->
   exists m, In m (cm_methods c) /\
@@ -1036,7 +1039,7 @@ Theorem forward_refs_bound : forall c c',
     (forall cls, fr_last_class (m_body m) = Some cls -> imported (cm_imports c) cls ->
        imported (cm_imports c') cls \/ exists from, In (SImport 1 from cls) (m_body m')).
 Proof.
-  intros c c' H Hheads m' Hm'. unfold fr_client in H.
+  intros se c c' H Hheads m' Hm'. unfold fr_client in H.
   set (ic := fr_imported (cm_imports c)) in *.
   destruct (fr_methods ic (cm_methods c)) as [[[ms A] B]|] eqn:Em; [|discriminate].
   destruct (fr_methods_spec _ _ _ _ _ Em) as [HA [HB HM]].
@@ -1045,12 +1048,16 @@ Proof.
   assert (Hkeep : forall n, lookup n ic = None -> imported (cm_imports c) n -> imported (cm_imports c') n /\ cm_methods c' = ms).
   { intros n Hn Hi. destruct (dedup A ++ B) as [|x r] eqn:Ed.
     - inversion H; subst. simpl. split; [exact Hi|reflexivity].
-    - destruct (fr_tc_imports ic (dedup A)); [|discriminate]. inversion H; subst. simpl.
-      split; [|reflexivity]. apply imported_app. apply fr_reduce_keeps; [exact Hi|].
-      intro Hc. destruct (Hrem n Hc) as [src Hs]. congruence. }
+    - assert (Hk : imported (fr_reduce (x :: r) (cm_imports c)) n).
+      { apply fr_reduce_keeps; [exact Hi|]. intro Hc. destruct (Hrem n Hc) as [src Hs]. congruence. }
+      destruct (fr_tc_imports ic (dedup A)) as [[|t0 tr]|]; [| |discriminate].
+      + destruct se; [|discriminate]. inversion H; subst. simpl. split; [exact Hk|reflexivity].
+      + inversion H; subst. simpl. split; [apply imported_app; exact Hk|reflexivity]. }
   assert (Hms : cm_methods c' = ms).
   { destruct (dedup A ++ B); [inversion H; reflexivity|].
-    destruct (fr_tc_imports ic (dedup A)); [|discriminate]. inversion H; reflexivity. }
+    destruct (fr_tc_imports ic (dedup A)) as [[|t0 tr]|]; [| |discriminate].
+    - destruct se; [|discriminate]. inversion H; reflexivity.
+    - inversion H; reflexivity. }
   rewrite Hms in Hm'. destruct (HM m' Hm') as [m [a [b [Hin Hf]]]].
   destruct (fr_method_spec _ _ _ _ _ Hf) as [_ [_ [Hsig Hcls]]].
   exists m. split; [exact Hin|]. split.
@@ -1215,3 +1222,45 @@ Theorem entries_applied_in_order : forall a b h o,
       end
   end.
 Proof. intros. rewrite resolve_entries_app. apply apply_hook_app. Qed.
+
+(* ================================================================== 15. const_name is injective on snake forms *)
+Lemma lower_not_upper : forall c, is_upper (to_lower c) = false.
+Proof. intros [[] [] [] [] [] [] [] []]; reflexivity. Qed.
+
+Lemma lower_upper_cancel : forall c, is_upper c = false -> to_lower (to_upper c) = c.
+Proof. intros [[] [] [] [] [] [] [] []]; intros H; try reflexivity; discriminate H. Qed.
+
+Lemma snake_go_no_upper : forall l last sep, forallb (fun c => negb (is_upper c)) (snake_go last sep l) = true.
+Proof.
+  induction l as [|c r IH]; intros last sep; simpl; [reflexivity|].
+  destruct (is_alnum c).
+  - rewrite forallb_app. simpl. rewrite lower_not_upper, IH. simpl.
+    destruct (match last with Some p => sep || boundary p (kind c) (head_lower r) | None => false end); reflexivity.
+  - apply IH.
+Qed.
+
+Lemma map_lower_upper : forall l, forallb (fun c => negb (is_upper c)) l = true -> map to_lower (map to_upper l) = l.
+Proof.
+  induction l as [|c r IH]; intros H; simpl; [reflexivity|]. simpl in H. apply andb_true_iff in H. destruct H as [Hc Hr].
+  rewrite lower_upper_cancel by (destruct (is_upper c); [discriminate|reflexivity]). rewrite IH by exact Hr. reflexivity.
+Qed.
+
+Lemma s2l_app : forall a b, s2l (a ++ b)%string = s2l a ++ s2l b.
+Proof. induction a as [|c r IH]; intros b; simpl; [reflexivity|]. unfold s2l in *. simpl. rewrite IH. reflexivity. Qed.
+
+(* two operations get the same constant only if their snake-cased names — i.e. their method and module names —
+   coincide, and then the generator has already refused them (duplicated file names) *)
+Theorem const_name_injective : forall a b, const_name a = const_name b -> snake (s2l a) = snake (s2l b).
+Proof.
+  intros a b H. unfold const_name, upper_s in H. apply (f_equal s2l) in H. rewrite !s2l_app, !s2l_l2s in H.
+  apply app_inv_tail in H. apply (f_equal (map to_lower)) in H.
+  rewrite !map_lower_upper in H by apply snake_go_no_upper. exact H.
+Qed.
+
+Theorem const_names_nodup : forall names,
+  NoDup (map (fun n => snake (s2l n)) names) -> NoDup (map const_name names).
+Proof.
+  induction names as [|n r IH]; intros H; simpl in *; [constructor|]. inversion H; subst. constructor; [|apply IH; assumption].
+  intro Hc. apply in_map_iff in Hc. destruct Hc as [m [Hm Hin]]. apply H2.
+  apply in_map_iff. exists m. split; [|exact Hin]. apply const_name_injective. exact Hm.
+Qed.
